@@ -204,18 +204,40 @@ def ob_cum_equiv(texts, timeout_ms):
             elif p.outcome.value not in pop:
                 out["witnesses"].append(w_choice(["u", pop, w], {}, 0, {"index_in": list(range(n))},
                                                  "returned %r is not an element of the population" % (p.outcome.value,)))
+    big = n > 16
     for pa in ra.paths:
+        if big and len(out["witnesses"]) >= 2:
+            break
         for other, what in ((rb, "cum_weights"), (rc, "tuple arguments")):
-            for pb in other.paths:
-                if not (isinstance(pa.outcome, Return) and isinstance(pb.outcome, Return)):
+            others = other.paths
+            if big:
+                # long vectors: one query per leaf against the disjunction of all differently-valued leaves of the other form
+                if not isinstance(pa.outcome, Return) or draws(pa) or kvar(pa) is None:
                     continue
-                if draws(pa) or draws(pb):
+                alts = []
+                for pb in other.paths:
+                    if isinstance(pb.outcome, Return) and not draws(pb) and kvar(pb) is not None and \
+                            pb.outcome.value != pa.outcome.value:
+                        alts.append(z3.And(*[z3.substitute(c, (kvar(pb), kvar(pa))) for c in pb.conds]) if pb.conds else z3.BoolVal(True))
+                if not alts:
                     continue
-                if pa.outcome.value == pb.outcome.value:
-                    continue
-                ka, kb = kvar(pa), kvar(pb)
-                conds = list(pa.conds) + [z3.substitute(c, (kb, ka)) for c in pb.conds]
-                r, m = common.check(tally, conds, timeout_ms, label="C16(c) weights vs %s disagree" % what, keep_sample=True)
+                others = [("grouped", alts)]
+            for pb in others:
+                if big:
+                    ka = kvar(pa)
+                    conds = list(pa.conds) + [z3.Or(*pb[1])]
+                    r, m = common.check(tally, conds, min(timeout_ms, 20000), _retry=False,
+                                        label="C16(c) weights vs %s disagree (%d groups)" % (what, n), keep_sample=True)
+                else:
+                    if not (isinstance(pa.outcome, Return) and isinstance(pb.outcome, Return)):
+                        continue
+                    if draws(pa) or draws(pb):
+                        continue
+                    if pa.outcome.value == pb.outcome.value:
+                        continue
+                    ka, kb = kvar(pa), kvar(pb)
+                    conds = list(pa.conds) + [z3.substitute(c, (kb, ka)) for c in pb.conds]
+                    r, m = common.check(tally, conds, timeout_ms, label="C16(c) weights vs %s disagree" % what, keep_sample=True)
                 note_unknown(out, r)
                 if r == "sat":
                     kv = mval(m, ka)
@@ -224,7 +246,8 @@ def ob_cum_equiv(texts, timeout_ms):
                                              "b": {"args": [enc("u"), enc(pop)], "kwargs": {"cum_weights": enc(cum)}}
                                              if what == "cum_weights" else
                                              {"args": [enc("u"), enc(tuple(pop)), enc(tuple(w))], "kwargs": {}},
-                                             "why": "weights=%s and %s select different items at k=%d" % (texts, what, kv),
+                                             "why": "weights=%s and %s select different items at k=%d" % (
+                                                 texts if len(texts) <= 12 else "%s... (%d weights)" % (texts[:6], len(texts)), what, kv),
                                              "plain": ""})
     for p in ra.paths:
         if isinstance(p.outcome, Return):
@@ -547,6 +570,10 @@ def main(tier):
     ns_range = [1, 2, 3, 10, 64, 2 ** 20 + 1] if tier == "quick" else \
         list(range(1, 65)) + [100, 1000, 65535, 65536, 2 ** 20, 2 ** 20 + 1, 10 ** 6]
     ns_uni = [1, 2, 3, 7] if tier == "quick" else list(range(1, 65))
+    from vf.props import sizes
+    derived = sizes.sizes_around()          # group-count thresholds read off the implementation (none on the pinned tree)
+    ns_range = sorted(set(ns_range) | set(derived))
+    ns_uni = sorted(set(ns_uni) | {d for d in derived if d <= 24})
     for n in ns_range:
         items.append(("range", n, timeout_ms))
     for n in ns_uni:
@@ -554,6 +581,7 @@ def main(tier):
     vecs = [["1", "2", "3"], ["0.1", "0.2", "0.3", "0.4"], ["1", "0", "1"], ["0", "0", "5"], ["3.4", "5", "3"], ["7"]]
     if tier == "thorough":
         vecs += [v for v in wf.family("quick", common.seed()) if len(v) <= 8][:40]
+    vecs += [[str(i % 7 + 1) for i in range(d)] for d in derived if d <= 256 and d > 1]
     for v in vecs:
         items.append(("cum", v, timeout_ms))
     items.sort(key=lambda it: -(it[1] if it[0] == "uniform" else 0))
